@@ -114,18 +114,28 @@ def r1_logger(ctx):
     ctx.check(not bad, "C15.R1", fn.key, "one-step-per-firing-execution",
               "rules named %s with trigger outcomes %s: the logger %s" % (bad[0] if bad else ("", "", "")), detail="%d scenarios" % n, loc=fn.loc())
     ctx.count("logger_scenarios", n)
-    # extract_entry: name of the lens, value = lens.get(..).ok()
+    # extract_entry (K6): the entry is named T::entry_name() and holds Some(lens value), or None when the lens fails
     ee = [f for f in F.all_fns if f.key.endswith("as mahf::logging::extractor::EntryExtractor>::extract_entry")]
     good = len(ee) == 1
+    why = "%d implementations" % len(ee)
     if good:
-        r = strip(ee[0].body.expr_of_local(0))
-        good = r[0] == "agg" and r[2] == ENTRY
-        if good:
-            nm = strip(r[4][F.field_index(ENTRY, "name")])
-            val = r[4][F.field_index(ENTRY, "value")]
-            keys = [x[1] for x in subexprs(val) if x[0] == "call"]
-            good = nm[0] == "call" and nm[1].endswith("EntryName::entry_name") and "core::result::Result::ok" in keys and "mahf::lens::Lens::get" in keys
-    ctx.check(good, "C15.R2", "EntryExtractor::extract_entry", "value-or-null-under-lens-name", "extract_entry does not store lens.get(problem, state).ok() under T::entry_name()", loc=ee[0].loc() if ee else None)
+        ni, vi = F.field_index(ENTRY, "name"), F.field_index(ENTRY, "value")
+        for present in (True, False):
+            tbl = {"mahf::lens::Lens::get": (ok(Sym("lens-value")) if present else err(Sym("lens-error"))), "mahf::logging::extractor::EntryName::entry_name": Sym("lens-name")}
+            it = install(Interp(ee[0].body, chain(mk_oracle(tbl), coll_oracle, std_oracle), [Sym("self"), Sym("problem"), Sym("state")], facts=F, inline=INL, max_visits=6))
+            outs = []
+            for p in it.run():
+                r = p.ret
+                if p.end == "return" and isinstance(r, Agg) and r.name == ENTRY:
+                    v = r.fields[vi]
+                    outs.append((getattr(r.fields[ni], "tag", "?"), (v.variant, getattr(v.fields[0], "tag", None) if v.fields else None) if isinstance(v, Agg) else repr(v)))
+                else:
+                    outs.append((p.end, repr(r)))
+            want = [("lens-name", ("Some", "lens-value") if present else ("None", None))]
+            if outs != want:
+                good = False
+                why = "source state %s: the entry is %s, expected %s" % ("present" if present else "missing", outs, want)
+    ctx.check(good, "C15.R2", "EntryExtractor::extract_entry", "value-or-null-under-lens-name", "extract_entry does not store Some(lens value) / None under T::entry_name(): %s" % why, loc=ee[0].loc() if ee else None)
 
 
 def load_val(v):
@@ -167,17 +177,52 @@ def r3_compressed(ctx):
             interp.mstate["map:%d" % k] = ()
             return Sym("map:%d" % k)
 
+        HME = "std::collections::hash::map::Entry"
+
         def hm_entry(interp, env, f, args):
             m = load(interp, env, args[0])
-            return Agg("hmentry", None, None, [m, load(interp, env, args[1])])
+            key = load(interp, env, args[1])
+            kt = getattr(key, "tag", key)
+            present = isinstance(m, Sym) and kt in dict(interp.mstate.get(m.tag, ()))
+            # std's enum: Entry::Occupied(OccupiedEntry) | Entry::Vacant(VacantEntry); the payload remembers map and key
+            return Agg("adt", HME, "Occupied" if present else "Vacant", [Agg("hmentry", None, None, [m, key])])
+
+        def slot_of(interp, env, v):
+            v = load(interp, env, v)
+            if isinstance(v, Agg) and v.name == HME and v.fields:
+                v = v.fields[0]
+            return v if isinstance(v, Agg) and v.kind == "hmentry" and isinstance(v.fields[0], Sym) else None
+
+        def entry_op(interp, env, f, args):
+            """VacantEntry::insert, OccupiedEntry::get / get_mut / into_mut / insert, Entry::key"""
+            e = slot_of(interp, env, args[0])
+            if e is None:
+                return TOP
+            mid, key = e.fields[0].tag, e.fields[1]
+            kt = getattr(key, "tag", key)
+            pairs = list(interp.mstate.get(mid, ()))
+            nm_ = f.get("name")
+            cur = dict(pairs).get(kt)
+            if nm_ == "key":
+                return key
+            if nm_ in ("get", "get_mut", "into_mut"):
+                return cur if kt in dict(pairs) else TOP
+            if nm_ == "insert":
+                if kt in dict(pairs):
+                    pairs = [(a, (args[1] if a == kt else b)) for (a, b) in pairs]
+                else:
+                    pairs.append((kt, args[1]))
+                interp.mstate[mid] = tuple(pairs)
+                return args[1] if "Vacant" in f.get("key", "") else cur
+            return TOP
 
         def or_insert_with(interp, env, f, args):
-            e = load(interp, env, args[0])
-            if not (isinstance(e, Agg) and e.kind == "hmentry" and isinstance(e.fields[0], Sym)):
+            e = slot_of(interp, env, args[0])
+            if e is None:
                 return TOP
             mid, key = e.fields[0].tag, e.fields[1]
             pairs = dict(interp.mstate.get(mid, ()))
-            kt = getattr(key, "tag", repr(key))
+            kt = getattr(key, "tag", key)
             if kt in pairs:
                 return pairs[kt]
             outs = interp.call_value(args[1], [])
@@ -189,6 +234,37 @@ def r3_compressed(ctx):
             pairs[kt] = outs[0][0]
             interp.mstate[mid] = tuple(pairs.items())
             return outs[0][0]
+
+        def collect_map(interp, env, f, args):
+            if not (f.get("ret") or "").startswith("std::collections::hash::map::HashMap<"):
+                return TOP
+            from collmodel import iter_items
+            its = iter_items(interp, env, args[0])
+            if its is None:
+                return TOP
+            m = hm_new(interp, env, f, args)
+            pairs = []
+            for x in its:
+                x = load(interp, env, x)
+                if not (isinstance(x, Agg) and x.kind == "tuple" and len(x.fields) == 2):
+                    return TOP
+                k_ = load(interp, env, x.fields[0])
+                k_ = getattr(k_, "tag", k_)
+                pairs = [(a, b) for (a, b) in pairs if a != k_] + [(k_, x.fields[1])]
+            interp.mstate[m.tag] = tuple(pairs)
+            return m
+
+        def or_insert_value(interp, env, f, args):
+            e = slot_of(interp, env, args[0])
+            if e is None:
+                return TOP
+            mid, key = e.fields[0].tag, e.fields[1]
+            kt = getattr(key, "tag", key)
+            pairs = dict(interp.mstate.get(mid, ()))
+            if kt not in pairs:
+                pairs[kt] = args[1]
+                interp.mstate[mid] = tuple(pairs.items())
+            return pairs[kt]
 
         def hm_insert(interp, env, f, args):
             m = load(interp, env, args[0])
@@ -209,7 +285,7 @@ def r3_compressed(ctx):
             if not (isinstance(m, Sym) and m.tag.startswith("map:")):
                 return TOP
             key = load(interp, env, args[1])
-            kt = getattr(key, "tag", repr(key))
+            kt = getattr(key, "tag", key)
             pairs = dict(interp.mstate.get(m.tag, ()))
             nm_ = f.get("name")
             if nm_ == "contains_key":
@@ -223,7 +299,12 @@ def r3_compressed(ctx):
         def hm_is_empty(interp, env, f, args):
             r = hm_len(interp, env, f, args)
             return TOP if r is TOP else r == 0
-        table = {"std::collections::hash::map::HashMap::get": hm_get, "std::collections::hash::map::HashMap::contains_key": hm_get,
+        table = {"core::iter::traits::iterator::Iterator::collect": collect_map, "core::iter::traits::collect::FromIterator::from_iter": collect_map,
+                 "std::collections::hash::map::VacantEntry::insert": entry_op, "std::collections::hash::map::OccupiedEntry::get": entry_op,
+                 "std::collections::hash::map::OccupiedEntry::get_mut": entry_op, "std::collections::hash::map::OccupiedEntry::into_mut": entry_op,
+                 "std::collections::hash::map::OccupiedEntry::insert": entry_op, "std::collections::hash::map::Entry::key": entry_op,
+                 "std::collections::hash::map::Entry::or_insert": lambda i_, e_, f_, a_: or_insert_value(i_, e_, f_, a_),
+                 "std::collections::hash::map::HashMap::get": hm_get, "std::collections::hash::map::HashMap::contains_key": hm_get,
                  "std::collections::hash::map::HashMap::len": hm_len, "std::collections::hash::map::HashMap::is_empty": hm_is_empty,
                  "std::collections::hash::map::HashMap::new": hm_new, "std::collections::hash::map::HashMap::with_capacity": hm_new,
                  "std::collections::hash::map::HashMap::entry": hm_entry, "std::collections::hash::map::Entry::or_insert_with": or_insert_with,
